@@ -17,14 +17,13 @@ TECHNIQUE = ('abstract evaluation of Sight.get_adjustment / _adjust_sfp_reticle_
              'with the three formulas; guarded-case analysis of the constructor for the three rejections')
 DECIDED = [
     'R1 FFP / SFP / LWIR click formulas per axis (vertical with the vertical click and drop correction, '
-    'horizontal with the horizontal click and windage correction), for every linear display unit of the clicks',
+    'horizontal with the horizontal click and windage correction), for every display unit of the clicks - the seven linear ones and the two tangent-based ones (inch/100yd, cm/100m): scaling the number shown in a tangent-based unit scales the tangent, not the angle, and is refuted',
     'R2 construction raises for an unknown focal plane, for SFP without calibration distance, and exactly when a '
     'click magnitude is <= 0',
     'R3 the row-based entry forwards (distance, drop_adj, windage_adj, magnification) in the right roles',
     'R1b for FFP and LWIR the click count is the ratio of the angles also when the clicks are displayed in the tangent-based units (CmPer100m, InchesPer100Yd)',
 ]
-NOT_DECIDED = ['nothing further: linearity and sign follow from the formulas; for clicks displayed in the two '
-               'tangent-based units the SFP re-wrap scales the tangent (difference O(theta^2)): recorded assumption']
+NOT_DECIDED = ['nothing further: linearity and sign follow from the formulas']
 
 LINEAR_UNITS = ('Radian', 'Degree', 'MOA', 'Mil', 'MRad', 'Thousandth', 'OClock')
 
@@ -92,9 +91,9 @@ def run(prog: Program, rep, thorough: bool) -> None:
                 rep.undecided(rule, entry.where, f'focal plane {fp}', 'not named by the statement')
                 continue
             exp_v, exp_h = _expected(fp)
-            # SFP: all linear units (the tangent units are a recorded assumption there); FFP / LWIR: a linear unit and
-            # the two tangent-based ones - the count must be the ratio of the angles whatever unit the clicks display in
-            units = LINEAR_UNITS if (fp == 'SFP' and rule == 'C19.R1') else \
+            # SFP: every linear unit and the two tangent-based ones; FFP / LWIR: a linear unit and the two tangent-based
+            # ones - the count must be the ratio of the angles whatever unit the clicks display in
+            units = tuple(LINEAR_UNITS) + ('CmPer100m', 'InchesPer100Yd') if (fp == 'SFP' and rule == 'C19.R1') else \
                 ('Mil', 'CmPer100m', 'InchesPer100Yd') if (fp != 'SFP' and rule == 'C19.R1') else ('Mil',)
             bad: Dict[str, str] = {}
             for unit in units:
@@ -156,8 +155,6 @@ def run(prog: Program, rep, thorough: bool) -> None:
                     rep.ok(rule, entry.where, f'{fp} {axis}: clicks = {(exp_v if axis == "vertical" else exp_h)!r}')
             if rule == 'C19.R3' and not bad:
                 rep.ok(rule, entry.where, f'{fp}: row fields (distance, drop_adj, windage_adj) forwarded in order')
-    rep.assume('clicks displayed in InchesPer100Yd / CmPer100m: the SFP re-wrap scales the tangent, not the angle '
-               '(difference O(theta^2)); not decided')
     rep.assume('the corrections and click sizes are angles within one turn')
 
     # ---- R2 ----------------------------------------------------------------------------------
@@ -226,6 +223,7 @@ def run(prog: Program, rep, thorough: bool) -> None:
 
 MUN = 'py_ballisticcalc/munition.py'
 VARIANTS = [
+    Variant('sfp-step-scaled-in-the-display-unit', 'break', [(MUN, '            return Angular.Radian(\n                click_size.raw_value\n                * self.scale_factor.raw_value\n                / _td.raw_value\n                * magnification\n            ) << click_size.units\n', '            return click_size.units(\n                click_size.unit_value\n                * self.scale_factor.raw_value\n                / _td.raw_value\n                * magnification\n            )\n')], 'C19.R1', 'the defect repaired by 1dc3f43: the SFP step scales the number shown in the click\'s display unit, which follows PreferredUnits.adjustment'),
     Variant('row-entry-swapped', 'break', [(MUN, 'trajectory_point.drop_adj,\n                                   trajectory_point.windage_adj,', 'trajectory_point.windage_adj,\n                                   trajectory_point.drop_adj,')], 'C19.R3', '', 'pass'),
     Variant('ffp-windage-by-vertical-click', 'break', [(MUN, 'windage_adj.raw_value / self.h_click_size.raw_value\n', 'windage_adj.raw_value / self.v_click_size.raw_value\n')], 'C19.R1', '', 'pass'),
     Variant('zero-click-accepted', 'break', [(MUN, 'if self.h_click_size.raw_value <= 0 or self.v_click_size.raw_value <= 0:', 'if self.h_click_size.raw_value < 0 or self.v_click_size.raw_value < 0:')], 'C19.R2', '', 'pass'),
